@@ -127,7 +127,7 @@ func c01ConcSetup(e *c07Env, sc c01ConcScenario, px *Proxy) (solo [2]c01ConcView
 		out := s.Run()
 		if out.Aborted != "" {
 			e.up.Take()
-			return out, [2]c01ConcView{}, out.Aborted + fmt.Sprintf(" (blocked: %v)", out.Blocked)
+			return out, [2]c01ConcView{}, concAbortText(out)
 		}
 		v, err := c01ConcViews(e, sc, resps)
 		return out, v, err
@@ -204,6 +204,9 @@ func c01Concurrent(c *Ctx) {
 			stats := explore.Run(explore.Config{MaxCost: pass.bound, Deadline: c.Deadline, Shard: c.Shard, Shards: c.Shards, ShardDepth: 2, TolerateDivergence: true, MaxDivergences: 16}, func(x *explore.Exec, own bool) {
 				out, v, berr := body(x)
 				if !own {
+					return
+				}
+				if concInconclusive(c, berr) {
 					return
 				}
 				c.Inc("evaluations")
